@@ -303,7 +303,13 @@ func c08Run(c *core.Ctx, idx int) {
 	// Base list.
 	var base []string
 	canon := map[string]bool{}
-	for i, n := 0, c.Rng.Intn(7); i < n; i++ {
+	nbase := c.Rng.Intn(7)
+	if c.Rng.Intn(20) == 0 {
+		// A long base list: many rules match the request at once.
+		nbase = 13 + c.Rng.Intn(30)
+		c.Event("long_base_lists", 1)
+	}
+	for i, n := 0, nbase; i < n; i++ {
 		s := c08RandomSpec(c, c08Patterns[c.Rng.Intn(len(c08Patterns))], dns)
 		s.Badfilter = false
 		canon[s.CanonKey()] = true
@@ -481,7 +487,7 @@ func init() {
 	core.Register(&core.Prop{
 		ID:    "C08",
 		Level: "exploration",
-		Rule: "metamorphic: base lists of 0..6 rules (+ hosts lines / referrer exceptions), k = 1..4 extra rules that are mutually similar (variations of one rule in one aspect) added with their $badfilter twins at random positions, " +
+		Rule: "metamorphic: base lists of 0..6 (one in twenty: 13..42) rules (+ hosts lines / referrer exceptions), k = 1..4 extra rules that are mutually similar (variations of one rule in one aspect) added with their $badfilter twins at random positions, " +
 			"and rules y differing from x in exactly one of {exception, pattern, content type, third-party, important, $domain, $denyallow, $dnstype, $ctag, $client, $dnsrewrite, match-case} added with x$badfilter; " +
 			"verdicts before/after are compared through rule objects in list order (NewMatchingResult, GetDNSBasicRule, DNSRewrites: exact texts) and through Engine, NetworkEngine and DNSEngine (equal up to priority ties); non-trivial = every extended list; distinct by relation and list",
 		Assumptions: []string{
